@@ -218,6 +218,9 @@ var vC14Contexts = []vC14Ctx{
 	{"select * where @ & key = 'a'", 'b'}, {"select * where key = 'a' | @", 'b'}, {"select * where is_int(value) and @", 'b'},
 	{"select * where @ or key ^= 'a'", 'b'}, {"select key, @ where key ^= 'a'", 'b'}, {"delete where @", 'b'},
 	{"select * where (@) = true", 'b'},
+	// in a select field that is not the last one
+	{"select @, key where key = 'a'", 't'}, {"select @ as f, value, key where key ^= 'a'", 't'}, {"select key, @, value where key = 'a'", 'n'},
+	{"select @, upper(key) as u where u = 'A'", 'b'}, {"select @, count(1) where key ^= 'a' group by key", 't'},
 	// behind an operand the expression optimizer folds away, and as the left operand of a field access
 	{"select * where false & @", 'b'}, {"select * where true | @", 'b'}, {"select * where key = 'a' & (false & @)", 'b'},
 	{"select * where false & @ = 'a'", 't'}, {"select * where json(@)['a'] = 'x'", 't'}, {"select * where split(@, ',')[0] = 'x'", 't'},
